@@ -31,7 +31,7 @@ NS = {
 PNG = base64.b64decode(b'iVBORw0KGgoAAAANSUhEUgAAAAEAAAABCAYAAAAfFcSJAAAADUlEQVR42mP8z8BQDwAEhQGAhKmMIQAAAABJRU5ErkJggg==')
 
 ADV = [u'<', u'&', u'>', u'"', u"'", u']]>', u'\r', u'\t', u'é', u'\U0001F600', u'<b>', u'&amp;', u'</p>', u'<!--',
-       u'&#60;', u'<![CDATA[', u']]', u'</style>', u'"\'', u'&lt;', u'ß', u'中', u'<p>', u'/>', u'-->', u'\n', u' ']
+       u'&#60;', u'<![CDATA[', u']]', u']]]>', u']]>]]>', u'</style>', u'"\'', u'&lt;', u'ß', u'中', u'<p>', u'/>', u'-->', u'\n', u' ']
 PLAINW = [u'alpha', u'beta', u'gamma', u'delta', u'omega', u'Lorem', u'ipsum', u'dolor', u'sit', u'amet', u'x', u'Zed']
 SPECIAL_P = [u'Heading_20_1', u'Heading_20_3', u'Preformatted_20_Text', u'Addressee', u'Title', u'Standard', u'Text_20_body']
 SPECIAL_S = [u'Emphasis', u'Strong_20_Emphasis', u'Teletype', u'Citation']
@@ -87,8 +87,6 @@ class Gen(object):
             self.n += 1
             # no blank and no colon: odfpy's load() rewrites those in style:name (make_NCName) but not in the references
             nm = (r.choice([u'n%d' % self.n, u'']) + self.advstr(2) + r.choice([u'', u'.1', u'_b'])).replace(u' ', u'').replace(u':', u'') or u'e'
-            if u']]>' in nm and r.random() < 0.85:
-                nm = nm.replace(u']]>', u']]')
             return nm
         if plain_pool and r.random() < 0.5:
             return r.choice(plain_pool)
@@ -109,7 +107,7 @@ class Gen(object):
                 parent = r.choice(store) if (r.random() < 0.25) else None
                 out.append({'fam': fam, 'name': nm, 'auto': r.random() < 0.5, 'parent': parent,
                             'bold': r.random() < 0.3, 'italic': r.random() < 0.3,
-                            'color': r.choice([None, None, None, u'#ff0000', u'#00ff00', u'</style><b>', u'a;b:c', u'&lt;', u'red]]>' if r.random() < 0.2 else u'red]]']),
+                            'color': r.choice([None, None, None, u'#ff0000', u'#00ff00', u'</style><b>', u'a;b:c', u'&lt;', u'red]]>', u']]>]]>', u'x]]]>']),
                             'margin': r.choice([None, None, u'1cm', u'0cm'])})
         ls = []
         for _ in range(r.randint(0, 2)):
